@@ -71,6 +71,9 @@
 #include <AIToolbox/POMDP/Algorithms/LinearSupport.hpp>
 #include <AIToolbox/POMDP/Algorithms/SARSOP.hpp>
 #include <AIToolbox/POMDP/Algorithms/GapMin.hpp>
+#include <AIToolbox/POMDP/Algorithms/QMDP.hpp>
+#include <AIToolbox/POMDP/Algorithms/FastInformedBound.hpp>
+#include <AIToolbox/POMDP/Algorithms/BlindStrategies.hpp>
 #include <AIToolbox/POMDP/Algorithms/PBVI.hpp>
 #include <AIToolbox/POMDP/Algorithms/PERSEUS.hpp>
 #include <AIToolbox/POMDP/Algorithms/POMCP.hpp>
@@ -457,6 +460,60 @@ static void scenarioPbReuse(vio::Cursor & c, vio::Out & o) {
     emitRuns(o, runs);
 }
 
+// ------------------------------------------------------------------ scenario: heap-history independence
+// heap <alg> <h> <hp> <pomdp_prefix> <pomdp>
+//   alg: ls | ip | wit | pbvi | perseus | qmdp | fib | blind
+//   The call under test (a new solver of horizon <h> on <pomdp>, typically a symmetric model with exact
+//   ties) is executed in forked children that all start from the parent's heap:
+//     run 0 alone;  run 1 after another solver object of the same class solved <pomdp_prefix> with horizon <hp>;
+//     run 2 after the same class solved <pomdp> itself with horizon <hp>;
+//     run 3 after allocating many blocks of assorted sizes and freeing every other one (rest kept alive);
+//     run 4 after allocating and freeing blocks in reverse order (fills the allocator's free lists).
+//   The complete result (order of entries, actions, observation links, values) must be bit-identical:
+//   anything ordered or keyed by an address shows up here.
+static void heapSolve(Run * r, const std::string & alg, unsigned h, const PomdpT & t) {
+    // the model's and the solver's engines are part of the declared state: fixed root seed, then the
+    // model and the solver are constructed in the same order
+    Seeder::setRootSeed(42);
+    const auto m = mkPomdp(t);
+    if (alg == "ls")        { POMDP::LinearSupport s(h, 0.0); auto [var, vf] = s(m); if (r) { r->d(var); dumpVF(*r, vf); } }
+    else if (alg == "ip")   { POMDP::IncrementalPruning s(h, 0.0); auto [var, vf] = s(m); if (r) { r->d(var); dumpVF(*r, vf); } }
+    else if (alg == "wit")  { POMDP::Witness s(h, 0.0); auto [var, vf] = s(m); if (r) { r->d(var); dumpVF(*r, vf); } }
+    else if (alg == "pbvi") { POMDP::PBVI s(8, h, 0.0); auto [var, vf] = s(m); if (r) { r->d(var); dumpVF(*r, vf); } }
+    else if (alg == "perseus") {
+        POMDP::PERSEUS s(8, h, 0.0);
+        double minR = 0.0; for (size_t x = 0; x < t.S; ++x) for (size_t a = 0; a < t.A; ++a) minR = std::min(minR, t.R[x][a][0]);
+        auto [var, vf] = s(m, minR); if (r) { r->d(var); dumpVF(*r, vf); } }
+    else if (alg == "qmdp") { POMDP::QMDP s(h, 0.0); auto [var, vf, q] = s(m); if (r) { r->d(var); dumpVF(*r, vf); dumpMat(*r, q); } }
+    else if (alg == "fib")  { POMDP::FastInformedBound s(h, 0.0); auto [var, q] = s(m); if (r) { r->d(var); dumpMat(*r, q); } }
+    else if (alg == "blind") { POMDP::BlindStrategies s(h, 0.0); auto [var, vl] = s(m, false); if (r) { r->d(var); dumpVList(*r, vl); } }
+    else throw std::logic_error("unknown solver " + alg);
+}
+static void scenarioHeap(vio::Cursor & c, vio::Out & o) {
+    std::string alg = c.next(); unsigned h = (unsigned) c.nextSize(), hp = (unsigned) c.nextSize();
+    PomdpT tp = readPomdp(c), t = readPomdp(c);
+    std::vector<Run> runs;
+    runs.push_back(forked([&](Run & r) { heapSolve(&r, alg, h, t); }, 20));
+    runs.push_back(forked([&](Run & r) { heapSolve(nullptr, alg, hp, tp); heapSolve(&r, alg, h, t); }, 20));
+    runs.push_back(forked([&](Run & r) { heapSolve(nullptr, alg, hp, t); heapSolve(&r, alg, h, t); }, 20));
+    runs.push_back(forked([&](Run & r) {
+        std::vector<void *> blocks;
+        for (size_t i = 0; i < 3000; ++i) blocks.push_back(std::malloc(16 + 8 * (i * 7 % 61)));
+        for (size_t i = 1; i < blocks.size(); i += 2) std::free(blocks[i]);     // the others stay alive
+        heapSolve(&r, alg, h, t);
+    }, 20));
+    runs.push_back(forked([&](Run & r) {
+        std::vector<void *> blocks;
+        for (size_t i = 0; i < 3000; ++i) blocks.push_back(std::malloc(24 + 8 * (i * 5 % 37)));
+        for (size_t i = blocks.size(); i-- > 0; ) std::free(blocks[i]);
+        heapSolve(&r, alg, h, t);
+    }, 20));
+    bool timeout = false;
+    for (const auto & r : runs) if (r.v.size() == 1 && r.v[0] == "CHILD_TIMEOUT") timeout = true;
+    if (timeout) { std::vector<Run> one(1); one[0].s("CHILD_TIMEOUT"); emitRuns(o, one); return; }
+    emitRuns(o, runs);
+}
+
 // ------------------------------------------------------------------ scenario: seeded algorithms
 // seeded <alg> <pre1> <pre2> <root> <pomdp> <belief>
 //   alg: pomcp | pbvi | perseus | mcts | amdp   — the same program (construct model, construct
@@ -630,6 +687,7 @@ int main(int argc, char ** argv) {
         else if (kind == "sarsop") scenarioSarsop(c, o);
         else if (kind == "seeded") scenarioSeeded(c, o);
         else if (kind == "gapmin") scenarioGapMin(c, o);
+        else if (kind == "heap") scenarioHeap(c, o);
         else if (kind == "pbreuse") scenarioPbReuse(c, o);
         else if (kind == "fg") scenarioFG(c, o);
         else if (kind == "ve") scenarioVE(c, o);
